@@ -20,6 +20,11 @@ def handler (mode : String) (line : String) : String :=
             let (es, w) := svcRunE [] reqs
             toStr (svcT es w reqs)
         | none =>
+          match wireOf? t with
+          | some (cfg, ops) =>
+              let r := run cfg ops
+              toStr (traceT ((obsOfRun r).map canonStep) (orderOfRun r) none)
+          | none =>
           match caseOf? t with
           | some (cfg, ops, fd) =>
               let r := run cfg ops
@@ -39,7 +44,7 @@ def handler (mode : String) (line : String) : String :=
               | some (es, fs) => verdictStr (Spec.checkSvcE reqs es fs)
               | none => "fail step=0 clause=unparsable-observation"
           | none =>
-            match caseOf? c with
+            match (wireOf? c).map (fun x => (x.1, x.2, false)) |>.orElse (fun _ => caseOf? c) with
             | some (cfg, ops, _) =>
                 match (parse os).bind traceOf? with
                 | some (tr, order, feed) => verdictStr (Spec.checkAll cfg ops tr order feed)
